@@ -1,0 +1,55 @@
+//go:build verif
+
+package clist
+
+// Contracts for the deductive checks in /verif (read by /verif/govc; comment-only, no code).
+//
+// The concurrent list is given ASSUMED sequence contracts (`trusted`: the bodies are not verified):
+// membership of an element in a list is the ghost field owner, the length is the real field len.
+
+//@ ghost field CElement.owner *CList
+
+//@ func CList.Len
+//@   trusted
+//@   assigns nothing
+//@   ensures len: result == l.len && result >= 0
+
+//@ func CList.Front
+//@   trusted
+//@   assigns nothing
+//@   ensures empty: result == nil <==> l.len == 0
+//@   ensures member: result != nil ==> result.owner == l
+
+//@ func CList.Back
+//@   trusted
+//@   assigns nothing
+//@   ensures empty: result == nil <==> l.len == 0
+//@   ensures member: result != nil ==> result.owner == l
+
+//@ func CElement.Next
+//@   trusted
+//@   assigns nothing
+//@   ensures member: (result != nil && e.owner != nil) ==> result.owner == e.owner
+
+//@ func CList.PushBack
+//@   trusted
+//@   assigns l.len, l.head, l.tail, result.owner, result.removed, result.Value, all(CElement.next), all(CElement.prev)
+//@   ensures fresh: result != nil && old(result.owner) == nil
+//@   ensures member: result.owner == l && !result.removed && result.Value == v
+//@   ensures len: l.len == old(l.len) + 1 && old(l.len) >= 0
+
+//@ func CList.Remove
+//@   trusted
+//@   requires member: e != nil && e.owner == l
+//@   assigns l.len, l.head, l.tail, l.wg, l.waitCh, e.owner, e.removed, all(CElement.next), all(CElement.prev)
+//@   ensures gone: e.owner == nil && e.removed
+//@   ensures len: l.len == old(l.len) - 1 && l.len >= 0
+//@   ensures value: result == e.Value
+
+//@ func CElement.DetachPrev
+//@   trusted
+//@   assigns all(CElement.prev)
+
+//@ func CElement.DetachNext
+//@   trusted
+//@   assigns all(CElement.next)
